@@ -267,10 +267,10 @@ def work_embedded(chunk):
 
 
 def work(arg):
-    tier, chunk = arg
+    tier, chunk, flags = arg
     u = Unit()
     for body in chunk:
-        for fl in FLAGS:
+        for fl in flags:
             text = fl + body
             with watchdog(20):
                 ok, obs = run_case(text, with_eval=(fl in ("", "+p:")))
@@ -284,12 +284,17 @@ def work(arg):
 def run(ctx):
     bodies = list(texts(ctx.tier))
     B = 50
-    ctx.pmap(work, [(ctx.tier, bodies[i:i + B]) for i in range(0, len(bodies), B)])
+    # every body of the quick space gets every flag prefix; the bodies only the thorough space adds get none and the two-letter prefix '+pm:'
+    # (a flag prefix is printed by RRELExpression.__repr__ alone: it does not interact with the shape of the body)
+    small = set(texts("quick")) if ctx.tier == "thorough" else set(bodies)
+    full = [x for x in bodies if x in small]
+    rest = [x for x in bodies if x not in small]
+    ctx.pmap(work, [(ctx.tier, full[i:i + B], FLAGS) for i in range(0, len(full), B)] + [(ctx.tier, rest[i:i + B], ["", "+pm:"]) for i in range(0, len(rest), B)])
     et = embed_texts()
     ctx.pmap(work_embedded, [et[i:i + 10] for i in range(0, len(et), 10)])
     return {
         "rule": "all RREL texts derivable from the RREL grammar in the union of spaces (navigation alphabet, max atoms, max bracket "
-                "depth) = %s, each with every flag prefix %s; atoms = navigation/parent/dots/^ elements; "
+                "depth) = %s, each body of the quick space with every flag prefix %s and every further body with none and '+pm:'; atoms = navigation/parent/dots/^ elements; "
                 "non-trivial = the printed form differs textually from the input (normalisation happened)" % (SPACES[ctx.tier], FLAGS),
         "exhaustive": True,
         "bodies": len(bodies),
